@@ -42,6 +42,7 @@ fn generators(cfg: &Cfg) -> Vec<Generator> {
         Generator { name: "tables", total: roles, run: run_table, case_cpu_limit_s: 60 },
         Generator { name: "text", total: cfg.tier.pick(600, 20_000), run: run_text, case_cpu_limit_s: 60 },
         Generator { name: "io", total: cfg.tier.pick(40, 600), run: run_io, case_cpu_limit_s: 120 },
+        Generator { name: "handles", total: cfg.tier.pick(300, 20_000), run: run_handles, case_cpu_limit_s: 120 },
         Generator { name: "sigmut", total: roles, run: run_sigmut, case_cpu_limit_s: 120 },
         Generator { name: "wiring", total: 1, run: run_wiring, case_cpu_limit_s: 120 },
     ]
@@ -590,6 +591,258 @@ fn run_io(cfg: &Cfg, index: u64, stats: &mut Stats) {
     }
     for (role, what) in problems {
         fail(stats, "io", index, format!("host-io-contract {}", role), &role, json!({"role": role, "problem": what}));
+    }
+}
+
+/* ------------------------------- handle histories against a model ------------------------------- */
+
+/// A random history of opens, reads, writes, flushes and closes over a few files on one machine. Every capability ever
+/// obtained is kept and used again at random, closed or not. The model: a reader is (file, position) or closed, a writer
+/// is (file) or closed; a closed capability stays closed whatever is opened later, distinct open capabilities never share
+/// state, reads deliver exactly the file's bytes from the capability's own position, and after everything is closed the
+/// files hold what the model says (create truncates at open time, append appends, each writer's bytes in order).
+fn run_handles(cfg: &Cfg, index: u64, stats: &mut Stats) {
+    let mut rng = Rng::for_case(cfg.seed, "C06/handles", index);
+    let scratch = Scratch::new("c06h");
+    let dir = scratch.path().to_path_buf();
+    // read-only inputs with distinguishable content, and output files
+    let inputs: Vec<(String, Vec<u8>)> = (0..3)
+        .map(|k| {
+            let lines = 1 + rng.below(4);
+            let mut content = Vec::new();
+            for l in 0..lines {
+                content.extend_from_slice(format!("in{k}-line{l}").as_bytes());
+                if l + 1 < lines || rng.chance(1, 2) {
+                    content.extend_from_slice(if rng.chance(1, 4) { b"\r\n" } else { b"\n" });
+                }
+            }
+            let path = scratch.write(&format!("in{k}.txt"), &content);
+            (path.to_str().unwrap().to_string(), content)
+        })
+        .collect();
+    let outputs: Vec<String> = (0..2).map(|k| dir.join(format!("out{k}.txt")).to_str().unwrap().to_string()).collect();
+    let mut out_model: Vec<Vec<u8>> = vec![Vec::new(); outputs.len()];
+    for (k, path) in outputs.iter().enumerate() {
+        let initial = format!("OLD{k}").into_bytes();
+        std::fs::write(path, &initial).unwrap();
+        out_model[k] = initial;
+    }
+    #[derive(Clone)]
+    enum ReaderState {
+        Open(usize, usize),
+        Closed,
+    }
+    #[derive(Clone)]
+    enum WriterState {
+        Open(usize),
+        Closed,
+    }
+    let mut readers: Vec<(SemValue, ReaderState)> = Vec::new();
+    let mut writers: Vec<(SemValue, WriterState)> = Vec::new();
+    let mut history: Vec<String> = Vec::new();
+    let mut problems: Vec<(String, String)> = Vec::new();
+    let steps = 8 + rng.below(25);
+    let host_bytes = |v: &SemValue| match v {
+        | SemValue::Host(HostValue::Bytes(b)) => Some(b.to_vec()),
+        | _ => None,
+    };
+    let ((), _) = with_session(b"", &[], |s| {
+        for step in 0..steps {
+            if !problems.is_empty() {
+                break;
+            }
+            stats.evaluations += 1;
+            let busy_output = |k: usize, writers: &Vec<(SemValue, WriterState)>| writers.iter().any(|(_, st)| matches!(st, WriterState::Open(f) if *f == k));
+            match rng.below(10) {
+                | 0 | 1 => {
+                    let f = rng.below(inputs.len());
+                    let (o, _) = s.call(Role::FsOpenReader, vec![str_lit(&inputs[f].0), err_k(), ok_k()]);
+                    history.push(format!("{step}: open_reader in{f} -> r{}", readers.len()));
+                    match branch(&o) {
+                        | Ok((OK, a)) if a.len() == 1 => readers.push((a[0].clone(), ReaderState::Open(f, 0))),
+                        | other => problems.push(("fs_open_reader".into(), format!("opening an existing file: {:?}", other.map(|(t, _)| t)))),
+                    }
+                    stats.cover("roles_called", "fs_open_reader");
+                }
+                | 2 | 3 if !readers.is_empty() => {
+                    let h = rng.below(readers.len());
+                    let (cap, state) = readers[h].clone();
+                    let (o, _) = s.call(Role::IoReadLine, vec![cap, err_k(), tagged_thunk(EOF), ok_k()]);
+                    history.push(format!("{step}: read_line r{h}"));
+                    stats.cover("roles_called", "io_read_line");
+                    match state {
+                        | ReaderState::Closed => {
+                            if !matches!(branch(&o), Ok((ERR, a)) if error_kind(&a) == Some(6)) {
+                                problems.push(("io_read_line".into(), format!("r{h} is closed: reading it must report Closed (6), got {:?}", branch(&o).map(|(t, a)| (t, a.iter().map(render).collect::<Vec<_>>())))));
+                            }
+                            stats.count("handle_ops_on_closed_capability");
+                        }
+                        | ReaderState::Open(f, pos) => {
+                            let content = &inputs[f].1;
+                            if pos >= content.len() {
+                                if !matches!(branch(&o), Ok((EOF, a)) if a.is_empty()) {
+                                    problems.push(("io_read_line".into(), format!("r{h} (in{f}) is at end of file: expected the EOF branch")));
+                                }
+                            } else {
+                                let rest = &content[pos..];
+                                let (line, consumed) = match rest.iter().position(|b| *b == b'\n') {
+                                    | Some(n) => (rest[..n].strip_suffix(b"\r").unwrap_or(&rest[..n]).to_vec(), n + 1),
+                                    | None => (rest.to_vec(), rest.len()),
+                                };
+                                match branch(&o) {
+                                    | Ok((OK, a)) if a.len() == 1 && host_bytes(&a[0]) == Some(line.clone()) => {}
+                                    | other => problems.push(("io_read_line".into(), format!("r{h} (in{f} at {pos}): expected line {:?}, got {:?}", String::from_utf8_lossy(&line), other.map(|(t, a)| (t, a.iter().map(render).collect::<Vec<_>>()))))),
+                                }
+                                readers[h].1 = ReaderState::Open(f, pos + consumed);
+                            }
+                        }
+                    }
+                }
+                | 4 if !readers.is_empty() => {
+                    let h = rng.below(readers.len());
+                    let (cap, state) = readers[h].clone();
+                    let (o, _) = s.call(Role::IoReadAll, vec![cap, err_k(), ok_k()]);
+                    history.push(format!("{step}: read_all r{h}"));
+                    stats.cover("roles_called", "io_read_all");
+                    match state {
+                        | ReaderState::Closed => {
+                            if !matches!(branch(&o), Ok((ERR, a)) if error_kind(&a) == Some(6)) {
+                                problems.push(("io_read_all".into(), format!("r{h} is closed: reading it must report Closed (6), got {:?}", branch(&o).map(|(t, a)| (t, a.iter().map(render).collect::<Vec<_>>())))));
+                            }
+                            stats.count("handle_ops_on_closed_capability");
+                        }
+                        | ReaderState::Open(f, pos) => {
+                            let rest = inputs[f].1[pos.min(inputs[f].1.len())..].to_vec();
+                            match branch(&o) {
+                                | Ok((OK, a)) if a.len() == 1 && host_bytes(&a[0]) == Some(rest.clone()) => {}
+                                | other => problems.push(("io_read_all".into(), format!("r{h} (in{f} at {pos}): expected {:?}, got {:?}", String::from_utf8_lossy(&rest), other.map(|(t, a)| (t, a.iter().map(render).collect::<Vec<_>>()))))),
+                            }
+                            readers[h].1 = ReaderState::Open(f, inputs[f].1.len());
+                        }
+                    }
+                }
+                | 5 if !readers.is_empty() => {
+                    let h = rng.below(readers.len());
+                    let (cap, state) = readers[h].clone();
+                    let (o, _) = s.call(Role::IoCloseReader, vec![cap, err_k(), ok_k()]);
+                    history.push(format!("{step}: close_reader r{h}"));
+                    stats.cover("roles_called", "io_close_reader");
+                    match state {
+                        | ReaderState::Closed => {
+                            if !matches!(branch(&o), Ok((ERR, a)) if error_kind(&a) == Some(6)) {
+                                problems.push(("io_close_reader".into(), format!("r{h} is already closed: closing it again must report Closed (6)")));
+                            }
+                            stats.count("handle_ops_on_closed_capability");
+                        }
+                        | ReaderState::Open(..) => {
+                            if !matches!(branch(&o), Ok((OK, a)) if a.is_empty()) {
+                                problems.push(("io_close_reader".into(), format!("closing the open r{h} failed")));
+                            }
+                            readers[h].1 = ReaderState::Closed;
+                        }
+                    }
+                }
+                | 6 => {
+                    let k = rng.below(outputs.len());
+                    if busy_output(k, &writers) {
+                        continue; // one open writer per file: concurrent writers are outside the model
+                    }
+                    let append = rng.chance(1, 2);
+                    let role = if append { Role::FsAppendWriter } else { Role::FsCreateWriter };
+                    let (o, _) = s.call(role, vec![str_lit(&outputs[k]), err_k(), ok_k()]);
+                    history.push(format!("{step}: {} out{k} -> w{}", if append { "append_writer" } else { "create_writer" }, writers.len()));
+                    stats.cover("roles_called", &role.source_name());
+                    match branch(&o) {
+                        | Ok((OK, a)) if a.len() == 1 => {
+                            writers.push((a[0].clone(), WriterState::Open(k)));
+                            if !append {
+                                out_model[k].clear();
+                            }
+                        }
+                        | other => problems.push((role.source_name(), format!("opening a writer: {:?}", other.map(|(t, _)| t)))),
+                    }
+                }
+                | 7 | 8 if !writers.is_empty() => {
+                    let h = rng.below(writers.len());
+                    let (cap, state) = writers[h].clone();
+                    let text = format!("<w{h}s{step}>");
+                    let (b, _) = s.call(Role::BytesFromStr, vec![str_lit(&text)]);
+                    let Ok(HostOutcome::Ret(bytes)) = b else { continue };
+                    let (o, _) = s.call(Role::IoWriteAll, vec![cap.clone(), bytes, err_k(), ok_k()]);
+                    history.push(format!("{step}: write_all w{h} {text}"));
+                    stats.cover("roles_called", "io_write_all");
+                    match state {
+                        | WriterState::Closed => {
+                            if !matches!(branch(&o), Ok((ERR, a)) if error_kind(&a) == Some(6)) {
+                                problems.push(("io_write_all".into(), format!("w{h} is closed: writing to it must report Closed (6), got {:?}", branch(&o).map(|(t, a)| (t, a.iter().map(render).collect::<Vec<_>>())))));
+                            }
+                            stats.count("handle_ops_on_closed_capability");
+                        }
+                        | WriterState::Open(k) => {
+                            if !matches!(branch(&o), Ok((OK, a)) if a.is_empty()) {
+                                problems.push(("io_write_all".into(), format!("writing to the open w{h} failed")));
+                            }
+                            out_model[k].extend_from_slice(text.as_bytes());
+                            if rng.chance(1, 3) {
+                                let (o, _) = s.call(Role::IoFlush, vec![cap, err_k(), ok_k()]);
+                                history.push(format!("{step}: flush w{h}"));
+                                if !matches!(branch(&o), Ok((OK, _))) {
+                                    problems.push(("io_flush".into(), format!("flushing the open w{h} failed")));
+                                }
+                            }
+                        }
+                    }
+                }
+                | 9 if !writers.is_empty() => {
+                    let h = rng.below(writers.len());
+                    let (cap, state) = writers[h].clone();
+                    let (o, _) = s.call(Role::IoCloseWriter, vec![cap, err_k(), ok_k()]);
+                    history.push(format!("{step}: close_writer w{h}"));
+                    stats.cover("roles_called", "io_close_writer");
+                    match state {
+                        | WriterState::Closed => {
+                            if !matches!(branch(&o), Ok((ERR, a)) if error_kind(&a) == Some(6)) {
+                                problems.push(("io_close_writer".into(), format!("w{h} is already closed: closing it again must report Closed (6)")));
+                            }
+                            stats.count("handle_ops_on_closed_capability");
+                        }
+                        | WriterState::Open(_) => {
+                            if !matches!(branch(&o), Ok((OK, _))) {
+                                problems.push(("io_close_writer".into(), format!("closing the open w{h} failed")));
+                            }
+                            writers[h].1 = WriterState::Closed;
+                        }
+                    }
+                }
+                | _ => {}
+            }
+        }
+        // quiescent point: close what is open, then compare the files with the model
+        for h in 0..writers.len() {
+            if let (cap, WriterState::Open(_)) = writers[h].clone() {
+                let _ = s.call(Role::IoCloseWriter, vec![cap, err_k(), ok_k()]);
+                writers[h].1 = WriterState::Closed;
+            }
+        }
+    });
+    if problems.is_empty() {
+        for (k, path) in outputs.iter().enumerate() {
+            let on_disk = std::fs::read(path).unwrap_or_default();
+            if on_disk != out_model[k] {
+                problems.push(("file-contents".into(), format!("out{k} holds {:?}, the model says {:?}", String::from_utf8_lossy(&on_disk), String::from_utf8_lossy(&out_model[k]))));
+            }
+        }
+    }
+    let closed_then_opened = history.iter().any(|h| h.contains("close_")) && history.len() >= 6;
+    if closed_then_opened {
+        stats.nontrivial(history.join(";").as_bytes());
+    }
+    stats.add("handle_history_operations", history.len() as u64);
+    if index == 1 {
+        stats.sample(json!({"handle_history": history}));
+    }
+    for (role, what) in problems {
+        fail(stats, "handles", index, format!("host-handle-contract {}", role), &role, json!({"role": role, "problem": what, "history": history}));
     }
 }
 
